@@ -1,5 +1,5 @@
 (* Extraction of Model/ExprPrint.v (with Model/Wrap.v, Model/StrEsc.v, Spec/PyGrammar.v): ExtrOcamlBasic only. *)
 From Coq Require Import ExtrOcamlBasic.
-From PydoctorVerif Require Import Base.Sexp Base.PyExpr Gen.TablesC15 Model.StrEsc Model.Wrap Spec.PyGrammar Model.ExprPrint.
+From PydoctorVerif Require Import Base.Sexp Base.PyExpr Gen.TablesC15 Model.StrEsc Model.Wrap Spec.PyLex Spec.PyGrammar Spec.PyTokenizer Model.ExprPrint.
 Extraction Language OCaml.
 Extraction "model.ml" run.
